@@ -35,9 +35,28 @@ def cond_atoms(c, truth):
     return out
 
 
+_EXPRS = {}   # text -> expression tree, for facts that name whole sub-formulas
+
+
 def rel_facts(c, truth):
-    """Facts of the form ('lt'|'le'|'eq'|'ne', a, b) from a condition."""
+    """Facts of the form ('lt'|'le'|'eq'|'ne', a, b) / ('true'|'false', text) from a condition, plus
+    ('true', text-of-disjunction) when a disjunction holds and ('nand', textX, textY) when a conjunction fails,
+    so that `!(X && Y)` followed by `X` yields `!Y` (see default_closure)."""
     facts = set()
+    cs = strip(c)
+    if isinstance(cs, dict) and cs.get("k") == "un" and cs["op"] == "!":
+        return rel_facts(cs["e"], not truth)
+    if isinstance(cs, dict) and cs.get("k") == "bin" and cs["op"] == "||" and truth:
+        t = show(cs)
+        _EXPRS[t] = cs
+        facts.add(("true", t))
+    if isinstance(cs, dict) and cs.get("k") == "bin" and cs["op"] == "&&" and not truth:
+        tl, tr = show(strip(cs["l"])), show(strip(cs["r"]))
+        _EXPRS[tl] = strip(cs["l"])
+        _EXPRS[tr] = strip(cs["r"])
+        facts.add(("nand", tl, tr))
+    if isinstance(cs, dict) and cs.get("k") == "bin" and cs["op"] == "||" and not truth:
+        pass
     for a in cond_atoms(c, truth):
         if len(a) == 5:
             op, l, r = a[0], a[1], a[2]
@@ -58,6 +77,17 @@ def rel_facts(c, truth):
         else:
             facts.add((a[0], a[1]))
     return facts
+
+
+def default_closure(fs):
+    """Resolve ('nand', X, Y) against a known-true X (or Y)."""
+    fs = set(fs)
+    for f in list(fs):
+        if f[0] == "nand":
+            for a, b in ((f[1], f[2]), (f[2], f[1])):
+                if ("true", a) in fs and b in _EXPRS:
+                    fs |= {x for x in rel_facts(_EXPRS[b], False) if x[0] != "nand"}
+    return fs
 
 
 def elem_kills(x):
@@ -82,6 +112,27 @@ def fact_killed(fact, kills):
     return False
 
 
+def contradicts(new, have):
+    """Does fact `new` contradict a fact in the set `have`?"""
+    k = new[0]
+    if k == "true":
+        return ("false", new[1]) in have
+    if k == "false":
+        return ("true", new[1]) in have
+    if len(new) != 3:
+        return False
+    a, b = new[1], new[2]
+    if k == "eq":
+        return ("ne", a, b) in have or ("lt", a, b) in have or ("lt", b, a) in have
+    if k == "ne":
+        return ("eq", a, b) in have
+    if k == "lt":
+        return ("le", b, a) in have or ("lt", b, a) in have or ("eq", a, b) in have
+    if k == "le":
+        return ("lt", b, a) in have
+    return False
+
+
 class MustFacts:
     """Forward must-analysis.  gen(cond, truth) -> set of facts generated on a
     branch edge; kills(elem) -> set of lvalue texts modified.  Results:
@@ -94,7 +145,7 @@ class MustFacts:
         self.kills = kills
         self.extra_gen = extra_gen  # (elem) -> set of facts generated after elem
         self.call_kills = call_kills
-        self.closure = closure
+        self.closure = closure if closure is not None else (default_closure if gen is rel_facts else None)
         self.IN = {}
         self._solve()
 
@@ -134,6 +185,10 @@ class MustFacts:
                 # tested; only post-inc/dec leave the operand different from the tested value)
                 ks = {lv(l) for l, kind, n in writes(c) if kind == "incdec" and n["op"].startswith("post")}
                 g = {x for x in g if not fact_killed(x, ks)}
+                # correlated conditions: an edge whose condition contradicts what already holds is infeasible
+                if any(contradicts(x, f) for x in g):
+                    res.append(None)
+                    continue
                 f |= g
             if self.closure:
                 f = self.closure(f)
